@@ -10,7 +10,20 @@ def fetch_fields(core):
     return res[0]["go"]["fields"]
 
 
-def gen_desc(rng, fields, depth=2, nfields=(1, 5), rules_ok=0.95, order_p=0.3, big_int_p=0.01, empty_p=0.15):
+def _with_repeats(rng, names):
+    """A name list as Go code assembles it (appending the names of promoted / re-declared fields): some names occur more than once,
+    in adjacent positions (run of 2-3) or apart. Nothing in the Schema type forbids it (dup_p=0 keeps the old distribution)."""
+    out = list(names)
+    for _ in range(rng.randint(1, 2)):
+        i = rng.randrange(len(out))
+        if rng.random() < 0.75:
+            out[i:i] = [out[i]] * rng.randint(1, 2)          # adjacent run
+        else:
+            out.insert(rng.randrange(len(out) + 1), out[i])  # anywhere
+    return out
+
+
+def gen_desc(rng, fields, depth=2, nfields=(1, 5), rules_ok=0.95, order_p=0.3, big_int_p=0.01, empty_p=0.15, dup_p=0.0):
     """Returns {"nodes": [...], "root": 0} and a dict of facts about what was generated."""
     nodes = []
     facts = {"empty_enum": False, "big_int": False, "nil_child": False, "order": False, "extra_fold": False,
@@ -100,7 +113,10 @@ def gen_desc(rng, fields, depth=2, nfields=(1, 5), rules_ok=0.95, order_p=0.3, b
             if name == "PropertyOrder":
                 pool = gs.NAMES + ["zz", "a"]
                 return [rng.choice(pool) for _ in range(rng.randint(1, 5))]
-            return rng.sample(gs.NAMES, rng.randint(1, 3))
+            out = rng.sample(gs.NAMES, rng.randint(1, 3))
+            if dup_p and rng.random() < dup_p:
+                out = _with_repeats(rng, out)
+            return out
         if t == "[]interface {}":
             if r < empty_p:
                 if name == "Enum":
@@ -123,7 +139,10 @@ def gen_desc(rng, fields, depth=2, nfields=(1, 5), rules_ok=0.95, order_p=0.3, b
                         facts["nil_depstrings"] = True
                     out.append([k, None])
                 else:
-                    out.append([k, rng.sample(gs.NAMES, rng.randint(0, 2))])
+                    vs = rng.sample(gs.NAMES, rng.randint(0, 2))
+                    if dup_p and vs and rng.random() < dup_p:
+                        vs = _with_repeats(rng, vs)
+                    out.append([k, vs])
             return out
         if t == "map[string]interface {}":
             if r < empty_p:
